@@ -6294,10 +6294,10 @@ def restore(
                     f"Path '{path if isinstance(path, str) else path.decode(DEFAULT_ENCODING)}' not found in source"
                 )
 
-            # Defense in depth: refuse a path that would escape the work tree.
-            full_path = _checked_worktree_path(r, tree_path)
-
             if worktree:
+                # Defense in depth: refuse a path that would escape the work tree.
+                full_path = _checked_worktree_path(r, tree_path)
+
                 # Use build_file_from_blob to restore to working tree
                 build_file_from_blob(blob, mode, full_path)
 
